@@ -95,6 +95,16 @@ var fixedSources = map[string]func() *ir.Module{
 		b.Term = &ir.TermRet{X: sum}
 		return m
 	},
+	// One function that returns a struct constant written as a struct literal
+	// (Typ unset): ret { i32, i32 } { i32 1, i32 2 }.
+	"fixed:literal-const": func() *ir.Module {
+		m := ir.NewModule()
+		f := m.NewFunc("f", types.NewStruct(types.I32, types.I32))
+		b := f.NewBlock("entry")
+		c := &constant.Struct{Fields: []constant.Constant{constant.NewInt(types.I32, 1), constant.NewInt(types.I32, 2)}}
+		b.Term = &ir.TermRet{X: c}
+		return m
+	},
 }
 
 func fixedSource(name string) *moduleSource {
